@@ -295,6 +295,7 @@ func (v *Float) Set(d interface{}) error {
 
 	if res, ok := d.(float64); ok {
 		v.value = res
+		v.source = nil
 		v.valid = true
 		return nil
 	}
